@@ -1,0 +1,12 @@
+//go:build verif && (amd64 || arm64)
+
+package websocket
+
+func init() {
+	VerifMaskAsm = func(b []byte, key uint32) uint32 {
+		if len(b) > 0 {
+			return maskAsm(&b[0], len(b), key)
+		}
+		return key
+	}
+}
